@@ -190,6 +190,7 @@ func c06LoopGuard(r *fw.Run, p *fw.Program) {
 		}
 		ru.Check(bad == "", "maker:"+suffix, p.Rel(ps.call.Pos()), "the function that "+what+" is not reachable from the guarded code", "the function that "+what+" ("+bad+") is statically reachable from the code that pushes on the detector: each hop through it starts with an empty detector, a self-referencing offset is never detected and the decoder recurses until the fatal stack overflow")
 	}
+	c06RecSeek(ru, p)
 	// recursive seeks
 	sord := map[string]int{}
 	for _, fn := range p.FqFunctions() {
